@@ -132,6 +132,14 @@ func (s *shutdownContext) createExitedChannel(name string) {
 	s.runtimeDomainExited[name] = make(chan struct{})
 }
 
+// forgetExitedChannel removes the channel of a process that could not be started:
+// there is no exit to wait for
+func (s *shutdownContext) forgetExitedChannel(name string) {
+	s.runtimeDomainExitedMutex.Lock()
+	defer s.runtimeDomainExitedMutex.Unlock()
+	delete(s.runtimeDomainExited, name)
+}
+
 // Blocks until all the processes in the runtime domain generation have exited.
 // This helps us have a nice sync point on Shutdown where we know for sure that
 // all the processes have exited and the state has been cleared. The exception
